@@ -199,8 +199,11 @@ def h_json(cx, fs, sps, container, deltas=None, touched=False):
     for i, o in enumerate(objs):
         if o.pdimension == 1:
             o.delta = 0.25 if i % 2 == 0 else 0.125
+        elif o.pdimension == 2:
+            o.delta = [(0.5, 0.25), (0.25, 0.5), (0.5, 0.5)][i % 3] if deltas is None else deltas
         else:
-            o.delta = 0.5 if i % 2 == 0 else 0.25
+            # per-direction sampling densities, two equal and one different (in every position)
+            o.delta = [(0.5, 0.5, 0.25), (0.25, 0.5, 0.5), (0.5, 0.25, 0.5)][i % 3] if deltas is None else deltas
     src = _container(objs) if container else objs[0]
     if touched:
         # a loop over the object was abandoned earlier (e.g. an export that raised half-way)
@@ -408,6 +411,11 @@ def instances(tier):
     for kind, lst in (('curve', crv), ('surface', srf), ('volume', vol)):
         for i, sp in enumerate(lst):
             out.append(inst('json single %s' % spec_name(sp), h_json, timeout=900, sps=[sp], container=False))
+        if kind == 'volume':
+            for dl in ((0.25, 0.5, 0.5), (0.5, 0.25, 0.5)):
+                out.append(inst('json single %s delta%s' % (spec_name(lst[1]), dl), h_json, timeout=900, sps=[lst[1]], container=False, deltas=dl))
+        if kind == 'surface':
+            out.append(inst('json single %s delta(0.5, 0.5)' % spec_name(lst[0]), h_json, timeout=900, sps=[lst[0]], container=False, deltas=(0.5, 0.5)))
         out.append(inst('json container1 %s' % kind, h_json, timeout=900, sps=lst[:1], container=True))
         out.append(inst('json container2 %s' % kind, h_json, timeout=1200, sps=lst[:2], container=True))
         if (kind != 'volume' and (not quick or kind == 'curve')) or (kind == 'volume' and not quick):
